@@ -488,6 +488,7 @@ class PtBuild:
         self.nodes: dict[int, Any] = {}
         self.input_names: dict[int, str | None] = {}
         self.data: dict[int, np.ndarray] = {}
+        self.post_skipped: set[int] = set()
         iv = data_values if data_values is not None else input_values(spec, vset)
         for inp in spec["inputs"]:
             i = inp["id"]
@@ -512,6 +513,8 @@ class PtBuild:
         for nd in nodes:
             args = [self.nodes[a] if is_ref(a) else dec_scalar(a) for a in nd["args"]]
             r = pt_apply(nd["op"], args, nd.get("params", {}))
+            if post is not None and any(r is a for a in args):
+                self.post_skipped.add(nd["id"])
             if post is not None and not any(r is a for a in args):
                 # (an operation that returns its operand itself -- roll by 0, reshape to the
                 # same shape -- is not a node of its own: decorating it would fork the operand)
